@@ -2,6 +2,7 @@
 //! Used by the `rtprops` binary (proptest campaigns) and by the libFuzzer targets under `../fuzz`.
 pub mod c11;
 pub mod c12;
+pub mod c12_chaos;
 pub mod c13;
 pub mod c14;
 pub mod c15;
